@@ -16,6 +16,8 @@ Definition behaviour_name (e : entry) : str :=
 Definition fixed_result : json :=
   JObj [(lit "ok", JArr [JInt 1; JStr (lit "x"); JNull; JBool true])].
 
+Definition exc_data (ty msg : string) : json := JObj [(lit "type", JStr (lit ty)); (lit "message", JStr (lit msg))].
+
 Definition corr_call (l : log) (e : entry) (p : params) : call_result :=
   let n := behaviour_name e in
   if str_eqb n (lit "count") then CallOk (JInt (Z.of_nat (List.length l)))
@@ -24,10 +26,10 @@ Definition corr_call (l : log) (e : entry) (p : params) : call_result :=
             | PList a => JArr [JInt (Z.of_nat (List.length a)); JArr []]
             | PDict d => JArr [JInt 0; JArr (map (fun kv => JStr (fst kv)) d)]
             end)
-  else if str_eqb n (lit "te") then CallTypeError true
-  else if str_eqb n (lit "te_bad") then CallTypeError false
-  else if str_eqb n (lit "oth") then CallOther true
-  else if str_eqb n (lit "oth_bad") then CallOther false
+  else if str_eqb n (lit "te") then CallTypeError (Some (exc_data "TypeError" "te"))
+  else if str_eqb n (lit "te_bad") then CallTypeError None
+  else if str_eqb n (lit "oth") then CallOther (Some (exc_data "ValueError" "oth"))
+  else if str_eqb n (lit "oth_bad") then CallOther None
   else if str_eqb n (lit "uns") then CallUnserializable
   else CallOk fixed_result.
 
